@@ -116,6 +116,7 @@ class State:
         self.term: Optional[Tuple[Any, ...]] = None  # ('return', V) | ('raise', text) | ('break',) | ('continue',)
         self.heap: Dict[int, Any] = {}  # id -> list | dict | ("dd", factory, dict)
         self._next = [0]
+        self.pending: Optional[str] = None  # name of an exception raised while evaluating an expression
 
     def fork(self) -> "State":
         s = State()
@@ -126,6 +127,7 @@ class State:
         s.heap = {k: (list(v) if isinstance(v, list) else dict(v) if isinstance(v, dict) else (v[0], v[1], dict(v[2])))
                   for k, v in self.heap.items()}
         s._next = [self._next[0]]
+        s.pending = self.pending
         return s
 
     def alloc(self, kind: str, obj: Any) -> Ref:
@@ -221,6 +223,11 @@ class Interp:
         if isinstance(e, ast.UnaryOp) and isinstance(e.op, ast.Not):
             t = self._truth_of(e.operand, st)
             return U("not") if t is None else K(not t)
+        if isinstance(e, ast.UnaryOp) and isinstance(e.op, (ast.USub, ast.UAdd)):
+            v = self.eval(e.operand, st)
+            if isinstance(v, K) and isinstance(v.v, (int, float)) and not isinstance(v.v, bool):
+                return K(-v.v if isinstance(e.op, ast.USub) else v.v)
+            return U("unary")
         if isinstance(e, ast.BoolOp):
             is_and = isinstance(e.op, ast.And)
             last: V = K(is_and)
@@ -301,6 +308,7 @@ class Interp:
                     return x if isinstance(x, V) else K(x)
                 except IndexError:
                     st.effects.append(("IndexError", norm(e)))
+                    st.pending = st.pending or "IndexError"
                     return U("index")
             if isinstance(obj, K) and isinstance(obj.v, (tuple, bytes, str)) and isinstance(key, R) and key.kind == "slice":
                 f = key.fields
@@ -317,6 +325,7 @@ class Interp:
                             return o[key.v]
                         except IndexError:
                             st.effects.append(("IndexError", norm(e)))
+                            st.pending = st.pending or "IndexError"
                             return U("IndexError")
                     if isinstance(key, R) and key.kind == "slice" and all(isinstance(key.fields[x], K) for x in ("lower", "upper", "step")):
                         f = key.fields
@@ -330,12 +339,14 @@ class Interp:
                     d[key] = nv
                     return nv
                 st.effects.append(("KeyError", norm(e)))
+                st.pending = st.pending or "KeyError"
                 return U("KeyError")
             if isinstance(obj, R) and obj.kind == "dict" and not isinstance(key, U):
                 for k, v in obj.fields["items"]:
                     if k == key:
                         return v
                 st.effects.append(("KeyError", norm(e)))
+                st.pending = st.pending or "KeyError"
                 return U("KeyError")
             if self.on_subscript:
                 v = self.on_subscript(obj, key, e, st)
@@ -479,6 +490,14 @@ class Interp:
         return None
 
     def comprehension(self, e: ast.AST, st: State) -> V:
+        sub_states: List[State] = []
+        v = self._comprehension(e, st, sub_states)
+        for sub in sub_states:
+            if sub.pending is not None and st.pending is None:
+                st.pending = sub.pending
+        return v
+
+    def _comprehension(self, e: ast.AST, st: State, sub_states: List[State]) -> V:
         """A comprehension over a concrete tuple/list/dict record is unrolled; over anything else it
         becomes one symbolic value R('comp', ...) whose element expression was evaluated once with the
         target bound to R('elem', of=<iterable>) - "for every element"."""
@@ -492,6 +511,7 @@ class Interp:
         sub.effects = st.effects
         sub.heap = st.heap
         sub._next = st._next
+        sub_states.append(sub)
         concrete: Optional[List[V]] = self.iterate(it, st)
         if concrete is not None:
             out: List[Any] = []
@@ -609,6 +629,8 @@ class Interp:
                 cur = nxt
             return cur
         val = self.eval(e, st)  # evaluates the atom (and records its effects) exactly once
+        if st.pending is not None:
+            return [(st, False)]  # the atom raised: the caller turns the pending exception into the outcome
         t = self._value_truth(e, val, st)
         if t is not None:
             return [(st, t)]
@@ -627,7 +649,11 @@ class Interp:
                 if x.term is not None:
                     nxt.append(x)
                 else:
-                    nxt.extend(self.stmt(s, x))
+                    for y in self.stmt(s, x):
+                        if y.pending is not None:
+                            y.term = ("raise", y.pending)
+                            y.pending = None
+                        nxt.append(y)
             states = nxt
             if len(states) > self.max_states:
                 raise AnalysisError(f"abstract interpretation: more than {self.max_states} states")
@@ -673,6 +699,14 @@ class Interp:
         else:
             raise AnalysisError(f"unsupported assignment target {norm(target)}")
 
+    exc_parents: Dict[str, str] = {}
+
+    def _handler_for(self, t: ast.Try, name: str) -> Optional[ast.ExceptHandler]:
+        for h in t.handlers:
+            if any(exc_is(name, hn, self.exc_parents) for hn in _handler_names(h)):
+                return h
+        return None
+
     def stmt(self, s: ast.stmt, st: State) -> List[State]:
         if isinstance(s, ast.Assign):
             v = self.eval(s.value, st)
@@ -702,13 +736,21 @@ class Interp:
         if isinstance(s, ast.If):
             out: List[State] = []
             for bs, b in self.branch(s.test, st):
+                if bs.pending is not None:
+                    out.append(bs)
+                    continue
                 out.extend(self.run(s.body if b else s.orelse, bs))
             return out
         if isinstance(s, ast.Return):
             st.term = ("return", self.eval(s.value, st) if s.value is not None else K(None))
             return [st]
         if isinstance(s, ast.Raise):
-            st.term = ("raise", norm(s.exc) if s.exc is not None else "reraise")
+            if s.exc is None:
+                name = "reraise"
+            else:
+                tgt = s.exc.func if isinstance(s.exc, ast.Call) else s.exc
+                name = (dotted(tgt) or norm(tgt)).split(".")[-1]
+            st.term = ("raise", name, norm(s.exc) if s.exc is not None else "")
             return [st]
         if isinstance(s, ast.Pass):
             return [st]
@@ -764,6 +806,15 @@ class Interp:
             for o in outs:
                 if o.term is None:
                     res.extend(self.run(s.orelse, o))
+                elif o.term[0] == "raise":
+                    h = self._handler_for(s, o.term[1])
+                    if h is None:
+                        res.append(o)
+                    else:
+                        if h.name:
+                            o.env[h.name] = S("exc:" + str(o.term[1]))
+                        o.term = None
+                        res.extend(self.run(h.body, o))
                 else:
                     res.append(o)
             if s.finalbody:
@@ -777,9 +828,63 @@ class Interp:
                         fin.append(f)
                 res = fin
             return res
+        if isinstance(s, ast.While):
+            live, outs_w = [st], []
+            for _ in range(64):
+                nxt_w: List[State] = []
+                for x in live:
+                    for bs, b in self.branch(s.test, x):
+                        if bs.pending is not None:
+                            outs_w.append(bs)
+                        elif not b:
+                            outs_w.extend(self.run(s.orelse, bs))
+                        else:
+                            for y in self.run(s.body, bs):
+                                if y.term is None:
+                                    nxt_w.append(y)
+                                elif y.term[0] == "continue":
+                                    y.term = None
+                                    nxt_w.append(y)
+                                elif y.term[0] == "break":
+                                    y.term = None
+                                    outs_w.append(y)
+                                else:
+                                    outs_w.append(y)
+                live = nxt_w
+                if not live:
+                    return outs_w
+            raise AnalysisError("abstract interpretation: while loop does not terminate within 64 iterations")
         if self.strict_stmt:
             raise AnalysisError(f"abstract interpretation: unsupported statement {type(s).__name__}: {norm(s)[:80]}")
         return [st]
+
+
+def _handler_names(h: ast.ExceptHandler) -> List[str]:
+    if h.type is None:
+        return ["BaseException"]
+    elts = h.type.elts if isinstance(h.type, ast.Tuple) else [h.type]
+    return [(dotted(e) or norm(e)).split(".")[-1] for e in elts]
+
+
+_EXC_PARENTS = {"KeyError": "LookupError", "IndexError": "LookupError", "LookupError": "Exception", "TypeError": "Exception",
+                "AttributeError": "Exception", "ValueError": "Exception", "ModuleNotFoundError": "ImportError",
+                "ImportError": "Exception", "Exception": "BaseException", "StopIteration": "Exception",
+                "RuntimeError": "Exception", "NotImplementedError": "RuntimeError", "UnicodeError": "ValueError",
+                "JSONDecodeError": "ValueError", "AssertionError": "Exception", "OSError": "Exception", "RecursionError": "RuntimeError"}
+
+
+def exc_is(name: str, handler_name: str, extra: Optional[Dict[str, str]] = None) -> bool:
+    parents = dict(_EXC_PARENTS)
+    if extra:
+        parents.update(extra)
+    cur: Optional[str] = name
+    seen = set()
+    while cur is not None and cur not in seen:
+        if cur == handler_name:
+            return True
+        seen.add(cur)
+        cur = parents.get(cur)
+    return False
 
 
 def _mentions(key: str, name: str) -> bool:
